@@ -313,4 +313,4 @@ def main(tier=None, replay=None):
     ck.extra['model_constants'] = 'MC_CircuitEdit: 2 names, 1 cell kind + fork, <=3 nodes, <=3 lines, pins <=2, depth <=5 (thorough 6); MC_CircuitEdit_s: the same with pins <=1 and substitute of implementations 1,3,4,5,6; Gen / Gen_s depth <=4'
     return ck.finish('edit histories: every distinct (canonical state, last edit) of the bounded TLC model + seeded random histories of 40..400 '
                      'public edits over <=20 names incl. eliminate, substitute (7 implementation shapes), copy and pickle (continuing on the clone); '
-                     'distinct by the edit sequence')
+                     'plus histories generated with substitute (Gen_CircuitEdit_s) and two histories with pin positions 300 / 70000; distinct by the edit sequence')
